@@ -29,6 +29,7 @@ def run(prog, chk):
     chk.decided += ["an existing mark class definition only stands for a (variable) anchor that equals it field by field (shared with C06) (R10.8)"]
     chk.decided += ["for a designspace the kerning groups are collected from every source's font, not from one master (a class pair of a master whose group the others lack keeps its value) (R10.7)"]
     chk.decided += ["feature-writer objects keep no per-font state outside self.context (no memoising decorators, no attributes written outside __init__): a writer reused for the next designspace must not keep the previous one's sources (R10.11 = R08.7)"]
+    chk.decided += ["per-run accumulators of the interpolatable filters are per master: a name-keyed memo shared by all masters would give every master the first master's component offsets (R10.12 = R09.10 = R15.7)"]
     chk.not_decided += ["gvar / HVAR / GPOS variation data computed by fontTools.varLib and feaLib", "numeric reproduction of the masters"]
     chk.guard(r101, prog, chk)
     chk.guard(r102, prog, chk)
@@ -44,6 +45,8 @@ def run(prog, chk):
     chk.guard(r1010, prog, chk)
     from .c08 import r087
     chk.guard(r087, prog, chk, "R10.11")
+    from .c09 import check_master_isolation
+    chk.guard(check_master_isolation, prog, chk, "R10.12")
 
 
 def _source_loops(prog, f: FuncInfo) -> List[ast.For]:
